@@ -12,6 +12,7 @@ every state reachable from the initial one) guarantees the latter.
 import Mqtt.Proofs.BrokerLifeWillKept
 import Mqtt.Proofs.BrokerRefineCor
 import Mqtt.Proofs.BrokerRefineFail
+import Mqtt.Proofs.BrokerRefineCorX
 
 namespace Mqtt.Properties.C09
 open Mqtt.Iface.Broker Mqtt.Model.Broker Mqtt.Proofs.BrokerLife
@@ -454,5 +455,27 @@ theorem C09_server_close_publishes_wills (b : B) (s : Mqtt.Spec.Broker.S) (h : R
     | nil => intro b'; rfl
     | cons c rest ih => intro b'; simp only [List.map_cons, okRun, Mqtt.Proofs.BrokerRefine.okEv, Bool.true_and]; exact ih _
   exact ⟨C09_stopAll_is_run (liveIds b) b, Mqtt.Proofs.BrokerRefine.run_refines es b s h (hok _ b)⟩
+
+open Mqtt.Proofs.BrokerRefine (EvX okRunX runX specRunX liveSess willMsg endSpec) in
+open Mqtt.Spec.Broker (Accepts) in
+/-- **C09_refines_reference after a history with failed handshakes** (Proofs/BrokerRefineFail.lean:
+`BrokerX_refines_spec`).  The same statement for the end of a live connection and its will, after a
+history that may also contain first packets whose answer could not be written (`EvX.failFirst`) - such a
+CONNECT leaves no will behind (`C09_unanswerable_connect_no_will`), and `k` is still the record of the
+CONNECT that opened `c`. -/
+theorem C09_refines_reference_with_failed_handshakes (es : List EvX) (hok : okRunX {} es = true) (c : Nat)
+    (hl : (runX {} es).1.alive c = true) :
+    (step (runX {} es).1 (.packet c .disconnect)).2 = [.closed c] ∧
+    Accepts (Mqtt.Spec.Broker.step (specRunX {} es).1 (.close c)).2 (step (runX {} es).1 (.close c)).2 ∧
+    ∃ σ k, liveSess (runX {} es).1 c = some σ ∧ Mqtt.Spec.Broker.getConn (specRunX {} es).1 c = some k ∧
+      σ.willFlag = k.will.isSome ∧ σ.will = k.will.map willMsg ∧
+      (k.will = none → (step (runX {} es).1 (.close c)).2 = [.closed c]) ∧
+      (∀ w, k.will = some w →
+        (step (runX {} es).1 (.close c)).2 =
+          .closed c :: (onPublish (stopBase (runX {} es).1 c σ) (willMsg w)).2.2.1 ∧
+        (Mqtt.Spec.Broker.step (specRunX {} es).1 (.close c)).2 =
+          .closed c :: (Mqtt.Spec.Broker.accept (endSpec (specRunX {} es).1 c k)
+            { qos := w.qos, retain := w.retain, topic := w.topic, payload := w.payload }).2) :=
+  Mqtt.Proofs.BrokerRefine.end_acceptedX es hok c hl
 
 end Mqtt.Properties.C09
